@@ -1610,6 +1610,12 @@ func (c *compiler) compileCallInternal(
 				c.deleteCodeInfo(name)
 			case 3: // optimize one instruction argument (opscope, opX, opret)
 				j := len(c.codes) - 4
+				if c.codes[j+1].v.([3]int)[1] > 0 { // opX refers to a variable of the scope
+					c.append(&code{op: opload, v: v})
+					c.append(&code{op: oppushpc, v: pc})
+					c.append(&code{op: opcallpc})
+					break
+				}
 				if c.codes[j+2].op == opconst {
 					c.codes[j] = &code{op: oppush, v: c.codes[j+2].v}
 					c.codes = c.codes[:j+1]
